@@ -1521,6 +1521,23 @@ func buildSelectFieldsWithExpressions(fields []Field) (
 				}
 			}
 
+			// An aggregate that takes a value and further arguments without being parameterised
+			// (deduplicate(col, true) as the guide writes it): only the first argument is aggregated.
+			// Left as it was, the whole list "col , true" would be evaluated per row as one expression,
+			// fail for every row, and the result would be empty.
+			if !isMultiParamFunction && expression != "" {
+				if fn, exists := functions.Get(extractFunctionName(f.Expression)); exists && fn.GetType() == functions.TypeAggregation {
+					if params := splitTopLevelArgs(expression); len(params) > 1 {
+						first := strings.TrimSpace(params[0])
+						if isIdentifier(first) {
+							n, expression, allFields = first, "", nil
+						} else {
+							expression = first
+						}
+					}
+				}
+			}
+
 			// For multi-parameter functions, treat as post-aggregation expression
 			if isMultiParamFunction {
 				// Parse as single aggregation function with parameters
@@ -1573,6 +1590,36 @@ func buildSelectFieldsWithExpressions(fields []Field) (
 		}
 	}
 	return selectFields, fieldMap, expressions, postAggExpressions, nil
+}
+
+// splitTopLevelArgs splits an argument list at the commas that are outside parentheses, brackets and quotes.
+func splitTopLevelArgs(s string) []string {
+	var out []string
+	depth, start := 0, 0
+	var quote byte
+	for i := 0; i < len(s); i++ {
+		c := s[i]
+		if quote != 0 {
+			if c == quote {
+				quote = 0
+			}
+			continue
+		}
+		switch c {
+		case '\'', '"', '`':
+			quote = c
+		case '(', '[':
+			depth++
+		case ')', ']':
+			depth--
+		case ',':
+			if depth == 0 {
+				out = append(out, s[start:i])
+				start = i + 1
+			}
+		}
+	}
+	return append(out, s[start:])
 }
 
 // placeholderSafe maps every character of s that cannot be part of an identifier to '_'.
